@@ -72,9 +72,15 @@ def r_johnson(idx, rep, rule="R-JOHNSON"):
         ps = f.params()
         simplex, dname, sol = ps[0], ps[2], ps[3]
         cands = set()
+        # local names, derived from the shape of the function: `return OI[:N]`
+        OI, NP = "ordered_indices", "n_simplex_points"
+        for r_ in iter_stmts(f.node.body):
+            if isinstance(r_, ast.Return) and isinstance(r_.value, ast.Subscript) and isinstance(r_.value.slice, ast.Slice) and isinstance(r_.value.value, ast.Name):
+                OI = r_.value.value.id
+                NP = u(r_.value.slice.upper)
         # initial vertex 0
         init = [st for st in f.node.body if isinstance(st, ast.Expr) and isinstance(st.value, ast.Call) and u(st.value.func) == sol + ".from_vertex"]
-        oi0 = [st for st in f.node.body if isinstance(st, ast.Assign) and u(st.targets[0]).startswith("ordered_indices[0]")]
+        oi0 = [st for st in f.node.body if isinstance(st, ast.Assign) and u(st.targets[0]).startswith(OI + "[0]")]
         ok = bool(init) and const(init[0].value.args[1]) == 0 and bool(oi0) and const(oi0[0].value) == 0
         rep.check(ok, rule, f.key + "|(0,) initial", f.where, "the procedure must start from vertex 0 with ordered_indices[0] = 0")
         if ok:
@@ -129,17 +135,20 @@ def r_johnson(idx, rep, rule="R-JOHNSON"):
                     t = inner[0].test
                     if ncmp(t) is not None:
                         op, a_, b_ = ncmp(t)
-                        acc_ok = op == "<" and "solution_d" in u(a_) and sol in u(b_)
+                        acc_ok = op == "<" and u(a_).endswith(".distance_squared") and u(a_) != u(b_) and u(b_) == sol + ".distance_squared"
                     elif key in TIE_EXCEPTIONS:
                         from ..core.astutil import disjuncts
                         dj = disjuncts(t)
                         first = ncmp(dj[0]) if dj else None
-                        acc_ok = first is not None and first[0] == "<" and u(first[1]) == "diff" and const(first[2]) in (0, 0.0)
+                        dloc = {s_.targets[0].id: s_.value for s_ in st.body if isinstance(s_, ast.Assign) and isinstance(s_.targets[0], ast.Name)}
+                        acc_ok = first is not None and first[0] == "<" and isinstance(first[1], ast.Name) and const(first[2]) in (0, 0.0) \
+                            and isinstance(dloc.get(first[1].id), ast.BinOp) and isinstance(dloc[first[1].id].op, ast.Sub) \
+                            and u(dloc[first[1].id].right) == sol + ".distance_squared"
                     for s in inner[0].body:
-                        if isinstance(s, ast.Assign) and u(s.targets[0]).startswith("ordered_indices["):
+                        if isinstance(s, ast.Assign) and u(s.targets[0]).startswith(OI + "["):
                             vals = [const(e) for e in s.value.elts] if isinstance(s.value, ast.Tuple) else [const(s.value)]
                             oi_ok = vals == vlist
-                        if isinstance(s, ast.Assign) and u(s.targets[0]) == "n_simplex_points":
+                        if isinstance(s, ast.Assign) and u(s.targets[0]) == NP:
                             n_ok = const(s.value) == len(vlist)
                 rep.check(acc_ok, rule, key + " strict acceptance", where, "candidate %s is not accepted under `solution_d.distance_squared < solution.distance_squared`" % vlist)
                 rep.check(oi_ok and n_ok, rule, key + " records its vertices", where,
@@ -153,13 +162,13 @@ def r_johnson(idx, rep, rule="R-JOHNSON"):
                     op, a_, b_ = ncmp(test)
                     ok = op == "<" and u(a_) == "%s.dot_product_table[%s, %s]" % (simplex, v, v) and sol in u(b_)
                 rep.check(ok, rule, key + " strict acceptance", where, "vertex %s must be accepted under dot_product_table[%s, %s] < solution.distance_squared" % (v, v, v))
-                oi = [s for s in st.body if isinstance(s, ast.Assign) and u(s.targets[0]) == "ordered_indices[0]"]
-                nn = [s for s in st.body if isinstance(s, ast.Assign) and u(s.targets[0]) == "n_simplex_points"]
+                oi = [s for s in st.body if isinstance(s, ast.Assign) and u(s.targets[0]) == OI + "[0]"]
+                nn = [s for s in st.body if isinstance(s, ast.Assign) and u(s.targets[0]) == NP]
                 rep.check(bool(oi) and const(oi[0].value) == v and bool(nn) and const(nn[0].value) == 1, rule, key + " records its vertices", where,
                           "vertex candidate %s does not record ordered_indices[0] = %s and n_simplex_points = 1" % (v, v))
         found[fname] = (n, cands)
         rets = [s for s in iter_stmts(f.node.body) if isinstance(s, ast.Return)]
-        rep.check(len(rets) == 1 and u(rets[0].value) == "ordered_indices[:n_simplex_points]", rule, f.key + "|returns the recorded subset", f.where,
+        rep.check(len(rets) == 1 and u(rets[0].value) == "%s[:%s]" % (OI, NP), rule, f.key + "|returns the recorded subset", f.where,
                   "the procedure must return ordered_indices[:n_simplex_points]")
     rule2 = "R-EXHAUSTIVE"
     rep.rule(rule2, "the backup procedure compares every non-empty sub-simplex: 3 for a segment, 7 for a face, 15 for a tetrahedron", floor=3)
